@@ -8,7 +8,7 @@
    so a call that raises leaves an entry as well (counted exactly by C20_entries_count);
    _init_wrapper records after, so a failed __init__ leaves none. *)
 From Coq Require Import ZArith List Bool String.
-From IRV Require Import Base.Exn C20.Types Gen.C20Gen C20.Model C20.Proofs C20.Proofs2 C20.Hooks.
+From IRV Require Import Base.Exn C20.Types Gen.C20Gen C20.Model C20.Proofs C20.Proofs2 C20.Hooks C20.Journal.
 Import ListNotations.
 Open Scope list_scope.
 
@@ -136,6 +136,41 @@ Print Assumptions C20_raising_hook_aborts_operation.
 (* quiet is satisfiable by a non-trivial hook family *)
 Example quiet_nontrivial : quiet (fun j => if Nat.eqb j 1 then [fun _ => None; fun _ => None] else []).
 Proof. intros j f e. destruct (Nat.eqb j 1); simpl; intuition; subst; reflexivity. Qed.
+
+(* ------------------------------------------------------------------ the model IS the translated source *)
+
+(* Journal.__enter__, translated statement by statement from _journaling.py on this run (Gen: j_enter),
+   interpreted over the model state, is the hand model `enter` and returns self. *)
+Theorem C20_enter_translated : forall j st, jrun j j_enter st = Some (enter j st, Some VSelf).
+Proof. exact enter_translated. Qed.
+Print Assumptions C20_enter_translated.
+
+(* Journal.__exit__ (Gen: j_exit) is the hand model `exit_` AND returns None: it never suppresses the
+   exception of the block (PWith propagates it) and stores nothing else. *)
+Theorem C20_exit_translated : forall j st, jrun j j_exit st = Some (exit_ j st, None).
+Proof. exact exit_translated. Qed.
+Print Assumptions C20_exit_translated.
+
+(* Journal.record (Gen: j_record) is the hand model `record` of Hooks.v: build the entry, append it,
+   then call the hooks in order; unconditionally (no filtering, no de-duplication). *)
+Theorem C20_record_translated :
+  forall hooks j e, jrec hooks j e j_record None = Some (record hooks j e).
+Proof. exact record_translated. Qed.
+Print Assumptions C20_record_translated.
+
+(* WEAK REFERENCES.  Of the translated statements of Journal.__init__/__enter__/__exit__/record:
+   JournalEntry(...) keeps of the recorded object a weak reference and nothing else that reaches it;
+   no method stores one of its parameters (object, exception, traceback) in a field of the journal;
+   every field written is declared in __init__; no statement is outside the translated language. *)
+Theorem C20_journal_weak_only : journal_weak_only = true.
+Proof. vm_compute. reflexivity. Qed.
+Print Assumptions C20_journal_weak_only.
+
+(* ARGUMENT FORWARDING.  Every call of an original inside a wrapper factory (as extracted from the
+   source on this run) passes self, *args and **kwargs of the wrapper unchanged. *)
+Theorem C20_forwarding_complete : forwarding_complete = true.
+Proof. vm_compute. reflexivity. Qed.
+Print Assumptions C20_forwarding_complete.
 
 (* The hypotheses are satisfiable by non-trivial programs: three nested journals, an operation
    that raises inside the innermost block, the exception caught two levels up. *)
